@@ -91,10 +91,12 @@ Definition seg_progress (g : xseg) : Prop :=
 
 (** ** What was queued
 
-    The bundles given to [send_bundle_data] ([OSend]) while the endpoint was
-    open, in order.  (On a closed endpoint the call is a no-op in the model.) *)
+    The bundles accepted by [send_bundle_data] ([OSend]), in order: those given
+    while the endpoint was open and not terminating.  (On a closed endpoint the
+    call is a no-op in the model; once [_in_term] is set the call raises
+    RuntimeError and queues nothing.) *)
 Definition queued_by (s : ep) (o : op) : list bytes :=
-  match o with OSend d => if closed s then [] else [d] | _ => [] end.
+  match o with OSend d => if closed s || in_term s then [] else [d] | _ => [] end.
 
 Fixpoint queued_from (s : ep) (ops : list op) : list bytes :=
   match ops with
